@@ -235,9 +235,6 @@ impl WTClient {
         receipt: &AppointmentReceipt,
     ) {
         if let Some(tower) = self.towers.get_mut(&tower_id) {
-            // DISCUSS: It may be nice to independently compute the slots and compare
-            tower.available_slots = available_slots;
-
             // The same appointment may be acknowledged more than once (e.g. if the node notifies the same revocation again)
             if self
                 .dbm
@@ -247,6 +244,9 @@ impl WTClient {
                 log::debug!("Appointment receipt already stored ({tower_id}, {locator})");
                 return;
             }
+
+            // DISCUSS: It may be nice to independently compute the slots and compare
+            tower.available_slots = available_slots;
 
             self.dbm
                 .store_appointment_receipt(tower_id, locator, available_slots, receipt)
